@@ -263,6 +263,13 @@ def leafForEmbeddedSCTLax (tbs : Bytes) (rest : List Bytes) : Option (Bytes × B
   | [] => none
   | k1 :: _ => (removeExtLax sctOid tbs).map (·, k1)
 
+/-- `(*Certificate).IsPrecertificate`: some extension of the certificate carries the CT poison OID — critical or not, and
+independent of what a caller did to `UnhandledCriticalExtensions` -/
+def isPrecertificate (lt : Option Tbs) : Bool :=
+  match lt with
+  | some t => hasOid poisonOid (t.exts.getD [])
+  | none => false
+
 /-- what unmarshal → `Raw = nil` → marshal returns -/
 def remarshalLax (bs : Bytes) : Option Bytes := (laxTbs bs).map marshalTbs
 
